@@ -196,3 +196,56 @@ def storage_independence(ctx, pid, methods=('as', 'bl', 'tf', 'ir')):
                                       {'api': api, 'method': meth, 'n': n, 'm': m, 'dx': dx, 'lam': lam, 'z': z, 'dtype': np.dtype(dt).name,
                                        'u': ur.reshape(-1).tolist()},
                                       {'api': api, 'method': meth, 'what': 'field_storage', 'dtype': np.dtype(dt).name})
+
+
+def argument_types(ctx, pid, methods=('as', 'bl', 'tf', 'ir')):
+    """the scalar and option arguments of propagate_beam handed over in the other ordinary types that hold the same values - the three padding switches as a
+    tuple, the sample counts as a tuple, distance / pixel pitch / wavelength / wavenumber as NumPy float64 scalars or 0-d float64 tensors - give the same
+    propagated field (whatever the property says about the field then holds for these calls too).  Types the implementation rejects are not judged."""
+    import odak.learn.wave as LW
+    import odak.wave as NW
+    rng = ctx.rng
+    for (n, m) in ((6, 6), (5, 8)):
+        dx, lam, z, zc = rand_optics(rng, 'near')
+        k = 2 * math.pi / lam
+        u = rand_field(rng, n, m, 'gauss')
+        t = torch.from_numpy(np.asarray(u, dtype=np.complex128))
+        for meth in methods:
+            name = T_METHODS.get(meth, meth)
+            for pad in ([False, False, False], [True, False, True], [True, False, False]):
+                try:
+                    ref = LW.propagate_beam(t, k, z, dx, lam, propagation_type=name, zero_padding=list(pad), samples=[2, 2, 2, 2]).detach().numpy()
+                except Exception:
+                    continue
+                scale = max(1.0, float(np.max(np.abs(ref))))
+                variants = [('zero_padding as a tuple', dict(zero_padding=tuple(pad))),
+                            ('samples as a tuple', dict(samples=(2, 2, 2, 2))),
+                            ('distance as a NumPy float64 scalar', dict(distance=np.float64(z))),
+                            ('distance as a 0-d float64 tensor', dict(distance=torch.tensor(z, dtype=torch.float64))),
+                            ('pixel pitch and wavelength as NumPy float64 scalars', dict(dx=np.float64(dx), wavelength=np.float64(lam), k=np.float64(k)))]
+                for what, kw in variants:
+                    args = dict(k=k, distance=z, dx=dx, wavelength=lam, zero_padding=list(pad), samples=[2, 2, 2, 2])
+                    args.update(kw)
+                    ctx.case(('argument_types', pid, meth, n, m, tuple(pad), what), True)
+                    ctx.count('argument_types/' + what)
+                    try:
+                        out = LW.propagate_beam(t, args['k'], args['distance'], args['dx'], args['wavelength'], propagation_type=name,
+                                                zero_padding=args['zero_padding'], samples=args['samples']).detach().numpy()
+                    except Exception:
+                        ctx.count('argument_types/rejected: ' + what)
+                        continue
+                    if out.shape != ref.shape or not maxdiff(out, ref) <= 2e-3 * scale:
+                        ctx.violation('torch %s with %s (padding switches %s, %dx%d field) returns a different field than the same call with lists and Python '
+                                      'floats: shape %s vs %s, max difference %.3g' % (name, what, pad, n, m, out.shape, ref.shape, maxdiff(out, ref)),
+                                      {'api': 'torch', 'method': meth, 'n': n, 'm': m, 'dx': dx, 'lam': lam, 'z': z, 'pad': pad, 'variant': what},
+                                      {'api': 'torch', 'method': meth, 'what': 'argument_types', 'variant': what})
+            try:
+                refn = np.asarray(NW.propagate_beam(np.asarray(u, dtype=np.complex128), k, z, dx, lam, N_METHODS[meth]))
+                outn = np.asarray(NW.propagate_beam(np.asarray(u, dtype=np.complex128), np.float64(k), np.float64(z), np.float64(dx), np.float64(lam), N_METHODS[meth]))
+            except Exception:
+                continue
+            ctx.case(('argument_types', pid, 'numpy', meth, n, m), True)
+            if outn.shape != refn.shape or not maxdiff(outn, refn) <= 1e-9 * max(1.0, float(np.max(np.abs(refn)))):
+                ctx.violation('numpy %s with NumPy float64 scalars for k, distance, dx, wavelength differs from the call with Python floats' % N_METHODS[meth],
+                              {'api': 'numpy', 'method': meth, 'n': n, 'm': m, 'dx': dx, 'lam': lam, 'z': z},
+                              {'api': 'numpy', 'method': meth, 'what': 'argument_types'})
